@@ -419,6 +419,11 @@ Proof.
   - (* OQHeaders *)
     destruct (s_obj s) as [|t f|h c] eqn:Eo; try destruct t; try same_np HS.
     apply good_same; [exact HS|apply headers_neq].
+  - (* OHeadersMap *)
+    destruct (s_obj s) as [|t f|h c] eqn:Eo; try destruct t; try same_np HS.
+    cbn [ObjInv] in Hobj. destruct Hobj as [_ (Hc & _)].
+    apply good_same; [exact HS|].
+    eapply obs_res_neq; [apply analyze_request_safe; exact Hc|intros a; apply headers_neq].
   - (* OParseResponse *)
     assert (Hg : Good (s, obs_res (try_parse_response (N.to_nat slots) w)
                   (fun r => match r with
